@@ -3,7 +3,7 @@ import core, re
 from vaa_common import HDR, HDR_K, gvaa, monitor_rows
 
 def run(ctx):
-    core.run_extract(ctx, ["vaa_consts", "sol_parsevm", "ral_parsevaa", "signing_digest", "sha3_legacy_params"])
+    core.run_extract(ctx, ["vaa_consts", "vaa_codec", "sol_parsevm", "ral_parsevaa", "signing_digest", "sha3_legacy_params"])
     core.coq_prove(ctx, "C04")
     if ctx.tier == "thorough":
         core.coq_thorough_audit(ctx, "C04")
